@@ -98,9 +98,7 @@ Definition authenticate (users : list user) (i : nat) (pw : text) : bool :=
   | None => false
   end.
 
-(* s.replace(DQUOTE, DQUOTE DQUOTE) *)
-Definition dbl_quote (t : text) : text :=
-  flat_map (fun c => if (c =? 34)%Z then [34; 34]%Z else [c]) t.
+(* s.replace(DQUOTE, DQUOTE DQUOTE) is [Session.dbl_quote] *)
 
 (* ------------------------------------------------------------------ connection attributes *)
 Definition known_attrs : list string := ["logged"; "user"; "passive_server"; "data_connection"; "rename_from"].
